@@ -424,3 +424,75 @@ package keeper
 //@   ensures @order_otherwise_unchanged p1.Id == p0.Id && p1.Status == p0.Status && p1.Purchaser == p0.Purchaser && p1.Amount == p0.Amount && p1.RaiseTime == p0.RaiseTime && p1.CompletionTime == p0.CompletionTime
 //@   ensures @one_decision_appended len(p1.Decisions) == n + 1 && p1.Decisions[n].Decision == decision && p1.Decisions[n].DecisionTime == unixSecs(blockTime(ctx)) && validBech32(p1.Decisions[n].Signer) && bytesval(addrOf(p1.Decisions[n].Signer)) == bytesval(signer)
 //@   ensures @earlier_decisions_kept forall j int :: {p1.Decisions[j]} 0 <= j && j < n ==> p1.Decisions[j] == p0.Decisions[j]
+
+// ================================================================ message server (L3 entry points)
+//
+// Every state-changing entry point requires and re-establishes ENT_ALL (queues mirror order status, fresh ids
+// unused, queued orders completable).  State assumptions, listed in the evidence: block time within int64 seconds,
+// fewer than 2^64-1 orders ever raised, order amounts below 2^128 base units, fewer than 2^62 decisions per order.
+
+// Raising an order: only a whitelisted purchaser (the signer, see GetSigners), only a positive amount in the module's
+// denomination; the order gets the next unused id, status Raised, and joins the raised queue.  Rejection changes nothing.
+//@ func msgServer.UndPurchaseOrder(goCtx, msg) (resp, err)
+//@   props C03 C13 C14
+//@   requires ENT_ALL(ent_store)
+//@   requires 0 <= unixSecs(blockTime(goCtx)) && unixSecs(blockTime(goCtx)) < 2^63
+//@   requires entHighestSet(ent_store) ==> u64dec(ent_store[kEHighest]) < 2^64 - 1
+//@   requires !isnil(msg.Amount.Amount) && Amt(msg.Amount) < P128
+//@   let s0 := old(ent_store)
+//@   let id := resp.PurchaseOrderId
+//@   let p1 := poGet(ent_store, resp.PurchaseOrderId)
+//@   modifies ent_store
+//@   nopanic
+//@   ensures @rejected_changes_nothing err != nil ==> ent_store == s0
+//@   ensures @purchaser_whitelisted err == nil ==> validBech32(msg.Purchaser) && wlHas(s0, bytesval(addrOf(msg.Purchaser)))
+//@   ensures @positive_amount_in_denom err == nil ==> Amt(msg.Amount) > 0 && msg.Amount.Denom == entDenom(s0)
+//@   ensures @next_unused_id err == nil ==> entHighestIs(s0, id) && !poHas(s0, id) && entHighestIs(ent_store, id + 1)
+//@   ensures @stored_as_raised err == nil ==> poHas(ent_store, id) && p1.Id == id && p1.Status == 1 && p1.Purchaser == msg.Purchaser && p1.Amount == msg.Amount && p1.RaiseTime == unixSecs(blockTime(goCtx)) && p1.CompletionTime == 0 && len(p1.Decisions) == 0
+//@   ensures @queued err == nil ==> raisedHas(ent_store, id) && !acceptedHas(ent_store, id)
+//@   ensures @frame err == nil ==> forall k `enterprise.Key` :: {ent_store[k]} !(k == kPO(id) || k == kRaised(id) || k == kEHighest) ==> ent_store[k] == s0[k]
+//@   ensures @inv ENT_ALL(ent_store)
+
+// Deciding: only an authorised signer, only on an existing order that is still Raised, only accept/reject, and only
+// once per signer address whatever its spelling.  Exactly one decision is appended; nothing else changes.
+//@ func msgServer.ProcessUndPurchaseOrder(goCtx, msg) (resp, err)
+//@   props C03 C13 C14
+//@   requires ENT_ALL(ent_store)
+//@   requires 0 <= unixSecs(blockTime(goCtx)) && unixSecs(blockTime(goCtx)) < 2^63
+//@   requires poHas(ent_store, msg.PurchaseOrderId) ==> len(poGet(ent_store, msg.PurchaseOrderId).Decisions) < 2^62
+//@   let s0 := old(ent_store)
+//@   let id := msg.PurchaseOrderId
+//@   let p0 := poGet(old(ent_store), msg.PurchaseOrderId)
+//@   let p1 := poGet(ent_store, msg.PurchaseOrderId)
+//@   let n := len(poGet(old(ent_store), msg.PurchaseOrderId).Decisions)
+//@   modifies ent_store
+//@   ensures @rejected_changes_nothing err != nil ==> ent_store == s0
+//@   ensures @authorised_signer_only err == nil ==> validBech32(msg.Signer) && isEntSignerIn(splitOn(entParams(s0).EntSigners, ","), bytesval(addrOf(msg.Signer)))
+//@   ensures @raised_order_only err == nil ==> poHas(s0, id) && p0.Status == 1 && (msg.Decision == 2 || msg.Decision == 3)
+//@   ensures @once_per_signer err == nil ==> forall j int :: {p0.Decisions[j]} 0 <= j && j < n && validBech32(p0.Decisions[j].Signer) ==> bytesval(addrOf(p0.Decisions[j].Signer)) != bytesval(addrOf(msg.Signer))
+//@   ensures @one_decision_appended err == nil ==> len(p1.Decisions) == n + 1 && p1.Decisions[n].Decision == msg.Decision && p1.Decisions[n].DecisionTime == unixSecs(blockTime(goCtx)) && validBech32(p1.Decisions[n].Signer) && bytesval(addrOf(p1.Decisions[n].Signer)) == bytesval(addrOf(msg.Signer))
+//@   ensures @earlier_decisions_kept err == nil ==> forall j int :: {p1.Decisions[j]} 0 <= j && j < n ==> p1.Decisions[j] == p0.Decisions[j]
+//@   ensures @status_amount_purchaser_unchanged err == nil ==> p1.Id == p0.Id && p1.Status == p0.Status && p1.Purchaser == p0.Purchaser && p1.Amount == p0.Amount && p1.RaiseTime == p0.RaiseTime && p1.CompletionTime == p0.CompletionTime
+//@   ensures @frame err == nil ==> ent_store == s0[kPO(id) := ent_store[kPO(id)]]
+//@   ensures @inv ENT_ALL(ent_store)
+//@   loop 0: invariant 0 - 1 <= rangeindex && rangeindex < len(currentDecisions)
+//@   loop 0: invariant forall j int :: {currentDecisions[j]} 0 <= j && j <= rangeindex && validBech32(currentDecisions[j].Signer) ==> bytesval(addrOf(currentDecisions[j].Signer)) != bytesval(signer)
+
+// Whitelist changes: only an authorised signer; exactly the named address is added or removed.
+//@ func msgServer.WhitelistAddress(goCtx, msg) (resp, err)
+//@   props C03 C13
+//@   requires entParamsSet(ent_store)
+//@   let s0 := old(ent_store)
+//@   let a := bytesval(addrOf(msg.Address))
+//@   modifies ent_store
+//@   ensures @rejected_changes_nothing err != nil ==> ent_store == s0
+//@   ensures @authorised_signer_only err == nil ==> validBech32(msg.Signer) && isEntSignerIn(splitOn(entParams(s0).EntSigners, ","), bytesval(addrOf(msg.Signer)))
+//@   ensures @exactly_that_address err == nil ==> validBech32(msg.Address) && (msg.Action == 1 || msg.Action == 2) && wlHas(ent_store, a) == (msg.Action == 1) && wlHas(s0, a) == (msg.Action == 2)
+//@   ensures @frame err == nil ==> ent_store == s0[kWhitelist(a) := ent_store[kWhitelist(a)]]
+
+//@ func msgServer.UpdateParams(goCtx, req) (resp, err)
+//@   props C13 C16
+//@   modifies ent_store
+//@   ensures @authority_only err == nil ==> req.Authority == k.Keeper.authority
+//@   ensures @rejected_changes_nothing err != nil ==> ent_store == old(ent_store)
+//@   ensures @valid_and_stored err == nil ==> ent_store == entParamsPut(old(ent_store), req.Params) && validDenom(req.Params.Denom) && req.Params.MinAccepts >= 1 && req.Params.DecisionTimeLimit >= 1 && len(splitOn(req.Params.EntSigners, ",")) >= req.Params.MinAccepts
